@@ -157,3 +157,194 @@ def run(source, probes):
         if cn in class_line:
             out[name] = (cn, class_line[cn])
     return out, None
+
+
+# ------------------------------------------------------------------------------------------
+# stream `bind`: signatures x calls for Model/ArgBind (bindJ = jedi, bindPy = CPython)
+#
+# signature = list of [name, kind, has_default] with kind in pos|star|kwonly|dstar, in the
+# order of the `def`; call = (number of positional arguments, [keyword names in call order]).
+# Argument i of the call (positionals first, then keywords) is the expression `A<i>()`, the
+# default of parameter `n` is `D_<n>()`: the class of a run-time value says which one it is.
+
+FOREIGN = ['x0', 'x1']
+MAXARGS = 8
+
+
+def enum_signatures(max_pos, max_kwonly):
+    for npos in range(max_pos + 1):
+        for ndef in range(npos + 1):                       # defaults are trailing
+            pos = [['p%d' % i, 'pos', i >= npos - ndef] for i in range(npos)]
+            for star in (False, True):
+                for nk in range(max_kwonly + 1):
+                    for mask in range(2 ** nk):
+                        kwo = [['k%d' % i, 'kwonly', bool(mask >> i & 1)] for i in range(nk)]
+                        for ds in (False, True):
+                            yield pos + ([['rest', 'star', False]] if star else []) + kwo + \
+                                ([['opts', 'dstar', False]] if ds else [])
+
+
+def enum_calls(sig, max_posargs, max_kws, foreign=FOREIGN):
+    """every (npos, keyword names): keywords = ordered selections of distinct names among all
+    parameter names (the *args / **kwargs names too) and the foreign names"""
+    import itertools
+    names = [p[0] for p in sig] + list(foreign)
+    for npos in range(max_posargs + 1):
+        for nk in range(max_kws + 1):
+            for kws in itertools.permutations(names, nk):
+                yield [npos, list(kws)]
+
+
+def random_signature(rng):
+    npos = rng.randint(0, 4)
+    ndef = rng.randint(0, npos)
+    sig = [['p%d' % i, 'pos', i >= npos - ndef] for i in range(npos)]
+    if rng.random() < 0.55:
+        sig.append(['rest', 'star', False])
+    for i in range(rng.choice([0, 0, 1, 2, 3])):
+        sig.append(['k%d' % i, 'kwonly', rng.random() < 0.5])
+    if rng.random() < 0.5:
+        sig.append(['opts', 'dstar', False])
+    return sig
+
+
+def random_call(rng, sig):
+    """mostly calls CPython accepts, some it rejects"""
+    posn = [p[0] for p in sig if p[1] == 'pos']
+    has_star = any(p[1] == 'star' for p in sig)
+    has_ds = any(p[1] == 'dstar' for p in sig)
+    if rng.random() < 0.8:
+        npos = rng.randint(0, len(posn) + (3 if has_star else 0))
+        kws = []
+        for p in sig:
+            if p[1] == 'pos' and posn.index(p[0]) < npos:
+                continue
+            if p[1] in ('pos', 'kwonly') and (not p[2] or rng.random() < 0.5):
+                kws.append(p[0])
+        if has_ds:
+            kws += rng.sample(FOREIGN + [p[0] for p in sig if p[1] in ('star', 'dstar')], rng.choice([0, 0, 1, 2]))
+        if rng.random() < 0.15 and kws:
+            kws.pop(rng.randrange(len(kws)))
+        rng.shuffle(kws)
+        kws = kws[:MAXARGS - 2]
+        return [max(0, min(npos, MAXARGS - len(kws))), kws]
+    names = [p[0] for p in sig] + FOREIGN
+    kws = rng.sample(names, rng.randint(0, min(3, len(names))))
+    return [rng.randint(0, len(posn) + 2), kws]
+
+
+def bind_sig_text(sig, default=lambda n: 'D_%s()' % n):
+    parts = []
+    seen_star = False
+    for n, k, d in sig:
+        if k == 'kwonly' and not seen_star:
+            parts.append('*')
+            seen_star = True
+        if k == 'star':
+            seen_star = True
+        parts.append({'pos': '', 'kwonly': '', 'star': '*', 'dstar': '**'}[k] + n + ('=' + default(n) if d else ''))
+    return ', '.join(parts)
+
+
+def bind_call_text(call, arg=lambda i: 'A%d()' % i):
+    npos, kws = call
+    return ', '.join([arg(i) for i in range(npos)] + ['%s=%s' % (k, arg(npos + j)) for j, k in enumerate(kws)])
+
+
+def bind_encode(sig, call):
+    """request for the Lean driver: parameter i is name i, foreign keyword j is name 100+j"""
+    idx = {p[0]: i for i, p in enumerate(sig)}
+    for j, x in enumerate(FOREIGN):
+        idx[x] = 100 + j
+    npos, kws = call
+    return {'op': 'bind', 'params': [[idx[n], k, bool(d)] for n, k, d in sig],
+            'pos': list(range(npos)), 'kws': [[idx[k], npos + j] for j, k in enumerate(kws)]}
+
+
+def bind_decode(sig, env):
+    """driver answer -> [[param name, bound]] with keyword names spelled out"""
+    if env is None:
+        return None
+    names = {i: p[0] for i, p in enumerate(sig)}
+    for j, x in enumerate(FOREIGN):
+        names[100 + j] = x
+    out = []
+    for n, b in env:
+        if b[0] == 'dict':
+            b = ['dict', [[names[k], a] for k, a in b[1]]]
+        out.append([names[n], b])
+    return out
+
+
+def cpython_bind(sig, calls):
+    """[[param name, bound]] or None (TypeError) for every call, by CPython itself: a real
+    function returning its locals is really called"""
+    g = {}
+    exec('def f(%s): return locals()' % bind_sig_text(sig, default=lambda n: "'default'"), g)
+    out = []
+    for call in calls:
+        try:
+            loc = eval('f(%s)' % bind_call_text(call, arg=str), g)
+        except TypeError:
+            out.append(None)
+            continue
+        env = []
+        for n, k, _ in sig:
+            v = loc[n]
+            if k == 'star':
+                b = ['tuple', list(v)]
+            elif k == 'dstar':
+                b = ['dict', [[kk, vv] for kk, vv in v.items()]]
+            elif v == 'default':
+                b = ['default']
+            else:
+                b = ['arg', v]
+            env.append([n, b])
+        out.append(env)
+    return out
+
+
+def kw_spelled_like_star(sig, call):
+    stars = {p[0] for p in sig if p[1] in ('star', 'dstar')}
+    return any(k in stars for k in call[1])
+
+
+HEADER = ['class A%d: pass' % i for i in range(MAXARGS)]
+
+
+def bind_module(sig, calls):
+    """source with one `def f` and one call statement per call (arguments are bare names: they are
+    identified by position, never inferred); returns (source, line of the first call)"""
+    lines = ['def f(%s): pass' % bind_sig_text(sig, default=lambda n: 'd_' + n)]
+    first = len(lines) + 1
+    lines += ['f(%s)' % bind_call_text(c, arg=lambda i: 'a%d' % i) for c in calls]
+    return '\n'.join(lines) + '\n', first
+
+
+def observables(sig, call, py_env):
+    """expressions over the parameters whose run-time class identifies the binding"""
+    obs = []
+    for n, b in py_env:
+        obs.append(n)
+        if b[0] == 'tuple':
+            obs += ['%s[%d]' % (n, i) for i in range(len(b[1]))]
+        elif b[0] == 'dict':
+            obs += ["%s['%s']" % (n, k) for k, _ in b[1]]
+    return obs
+
+
+def oracle_program(sig, call, obs):
+    """one function per observable, all with the same signature and call; probes r<i> alone on a
+    line.  returns (source, [(probe name, line)], {class name: def line})"""
+    lines = list(HEADER)
+    lines += ['class D_%s: pass' % n for n, _, d in sig if d]
+    class_line = {ln[6:].split(':')[0]: i for i, ln in enumerate(lines, 1)}
+    for i, o in enumerate(obs):
+        lines.append('def f%d(%s):' % (i, bind_sig_text(sig)))
+        lines.append('    return %s' % o)
+    probes = []
+    for i, o in enumerate(obs):
+        lines.append('r%d = f%d(%s)' % (i, i, bind_call_text(call)))
+        lines.append('r%d' % i)
+        probes.append(('r%d' % i, len(lines)))
+    return '\n'.join(lines) + '\n', probes, class_line
